@@ -48,3 +48,23 @@ chk("C03", "fault_enumeration", "A",
     "DESIGN.md §2 C03",
     "~12.8k body bit mutants (+ ~40k header bit mutants thorough), all <=2 (quick) / <=3 (thorough) combinations of a 10-dimensional response menu for both documents, and 1020 shadow-member / shadow-signature responses (5 genuine-document variants x key spelling incl. case and Unicode-fold variants x before/after x 9 shadow contents). Oracle: accept => both responses authentic (member bytes verify under a signature of the same response with a root-issued 'Intel SGX TCB Signing' certificate chaining to the trusted roots) and the signed members alone dictate acceptance.",
     CRYPTO + " V is computed with the reference TCB/QE algorithms of C04/C07 (harness/ref).")
+chk("C04", "exploration", "A",
+    "exhaustive walk of the property's small-scope abstraction (Engine A, deviation-bounded, plus the full two-level product) end-to-end through verify.TdxQuote over freshly signed TCB Info; two-directional comparison with a reference implementation of Intel's algorithm as the statement words it; reporting API checked on every world",
+    "DESIGN.md §2 C04",
+    "~7.5k signed TCB Info documents (quick; <=3 deviations thorough): <=3 levels with comparison patterns {equal, below, SGX fails at 0/15, PCE SVN above, TDX fails at 0/1/2/15} x statuses, TEE_TCB_SVN[1] in {0,1,3,0x0a}, TDX module identities present/absent/other with <=2 levels x isvsvn {equal, below, above} x 7 statuses, FMSPC / PCE-ID / MRSIGNERSEAM / masked SEAM attributes variants. The verdict must equal the reference in both directions (the rest of the world is honest) and SupportedTcbLevelsFromCollateral must return an error whenever no level matches.",
+    CRYPTO + " Random SVN vectors beyond the boundary-index abstraction are sampling and are not explored.")
+chk("C05", "fault_enumeration", "A",
+    "deviation-bounded exhaustive DFS (Engine A) at the revocation level over revoked-serial sets, CRL signers, CRL endpoint outcomes, distribution-point patterns and option combinations on the real verifier; condition computed from the descriptor",
+    "DESIGN.md §2 C05",
+    "All worlds with <=3 (quick) / <=4 (thorough) deviations from: 10 PCK-CRL serial sets x 11 Root-CRL serial sets (targets: leaf; intermediate, TCB-Info signer and QE-Identity signer as distinct certificates; near-miss, cross-CRL, 100-entry, 20-byte serials) x 5 signers per CRL (right CA, other CA, look-alike CA, right name/wrong key) x 8 endpoint outcomes per CRL x 6 distribution-point patterns x 3 option combinations. accept at L2 => both CRLs obtained, authenticated and listing no certificate of the chain; benign worlds must be accepted; CheckRevocations without GetCollateral never accepts; with revocation off CRL state must not matter.",
+    CRYPTO)
+chk("C06", "exploration", "A",
+    "exhaustive grid over Options.Now on two fixed honest worlds with staggered validity instants: every assignment with <=2 (quick) / <=3 (thorough) time-set fields off the safe instant, values {E-1s,E,E+1s} for every expiry and {nb-1s,nb} for every notBefore, at every checking level; reference = per-field validity windows",
+    "DESIGN.md §2 C06",
+    "~12k (quick) time assignments: singles at L0/L1/L2 and all pairs at L2 on the Intel-like shape (shared root; judged in both directions, which is what tells which field guards which artifact), singles on the own-copies shape with 13 pairwise distinct expiry instants (accept => in date). Monotonicity in time follows from the grid.",
+    CRYPTO + " Zero time values and CRL thisUpdate are outside the alphabet / statement.")
+chk("C07", "exploration", "A",
+    "exhaustive enumeration of QE reports (re-signed by the PCK key) against freshly signed QE Identity documents through verify.TdxQuote, two-directional comparison with a reference of the statement (masked equality, first level with isvsvn <= ISVSVN is UpToDate)",
+    "DESIGN.md §2 C07",
+    "~2.4k worlds: every MISCSELECT bit on the report, identity and mask side with a mixed mask; ATTRIBUTES bits inside/outside the mask at every byte; mask/value lengths 0/15/16/17; every MRSIGNER byte; ISVPRODID variants incl. byte-swapped; all level lists of length <=3 over isvsvn {below, equal, above} x statuses; hex case / odd length / non-hex; pairs of representative deviations.",
+    CRYPTO)
